@@ -51,6 +51,8 @@ def gen_record(rng, i, nonfinite):
                "sha256": "%064x" % rng.getrandbits(256), "size": rng.randint(1, 10**7), "version": "%d.%d" % (rng.randint(0, 3), i)}
         if rng.random() < 0.3:
             rec["extra"] = gen.gen_json(rng, 2, None, nonfinite)
+        if rng.random() < 0.15:
+            rec["type"] = rng.choice(["app", "pkg_mgr", "root", "key_mgr", 5, None])     # conda's old app packages carried "type": "app"
         return rec
     if r < 0.9:
         return gen.gen_json(rng, 3, None, nonfinite)
@@ -124,6 +126,7 @@ class StorageBase(World):
         self.fs.install_open(self.patch, lib)
         self.fs.install_stat(self.patch)
         self.fs.install_rename(self.patch)
+        self.fs.install_fd(self.patch)
         from seams import SimClockState, install_clock
         self.cstate = SimClockState(self.clock)
         self.cstate.hook = lambda n: setattr(self.cstate, "now", self.fs.now)
